@@ -21,13 +21,17 @@ func ShowFields(ctx context.Context, proc *query.Processor, filename string) err
 	}
 
 	if _, err = os.Stat(path); err != nil {
-		statements, _, err := parser.Parse("SELECT 1 FROM "+filename, "", false, proc.Tx.Flags.AnsiQuotes)
-		if err != nil {
+		// Not a file: the argument may be any other table that a SHOW FIELDS statement accepts.
+		statements, _, err := parser.Parse("SHOW FIELDS FROM "+filename, "", false, proc.Tx.Flags.AnsiQuotes)
+		if err != nil || len(statements) != 1 {
+			return query.NewFileNotExistError(filePath)
+		}
+		stmt, ok := statements[0].(parser.ShowFields)
+		if !ok {
 			return query.NewFileNotExistError(filePath)
 		}
 
-		q := statements[0].(parser.SelectQuery)
-		filePath = q.SelectEntity.(parser.SelectEntity).FromClause.(parser.FromClause).Tables[0].(parser.Table).Object
+		filePath = stmt.Table
 		filePath.ClearBaseExpr()
 	}
 
